@@ -202,15 +202,17 @@ CLAIMS = {
         note=COMMON_NOTE + "Month-unit taxonomy compared only where float (in)equalities agree with the exact ones "
              "(guard counts in the evidence).",
         tech="Lean 4 theorems (sortedDedup, gcd, pairwise non-overlap) + differential correspondence"),
-    "C14": dict(level=TV, ref="§7 C14",
-        text="Row-algebra model of the wide/long CSV writers and readers, the array data frame and the Matrix form. "
+    "C14": dict(level=PV, ref="§7 C14",
+        text="PARTIAL (pandas' CSV text layer - dtype inference, NaN handling, date parsing, float formatting - is library behaviour outside the model, correspondence only; the row algebra is proved). 24 kernel-checked theorems, none open. Row-algebra model of the wide/long CSV writers and readers, the array data frame and the Matrix form. "
              "Proved: slices_preserved_keys (decide over the group-by key lists regenerated from /repo: they contain "
              "the coordinates, all six metadata columns and the detail columns), groupKey_determines_metadata, "
              "slices_preserved_wide/long, rows_count_wide/long, fromWide_toWide and fromLong_toLong (cumulative triangles: "
              "rows grouped by the generated key list recover exactly the cells, scenario-sorted blocks recover sample "
              "order), fromArrayFrame_toArrayFrame (+ the inferred-resolution form, the D19 statement), "
-             "fromMatrix_toMatrix for triangles on the index grid. Three statements OPEN (the incremental one-row-per-cell "
-             "stream for wide/long, and that the gcd-inferred Matrix index puts a contiguous triangle on its grid). Correspondence: CSV text parsed with Python's csv module vs the model's rows, "
+             "fromMatrix_toMatrix for triangles on the index grid, fromWide_toWide_incremental and fromLong_toLong_incremental "
+             "(the one-row-per-cell incremental streams), matrixIndex_onGrid (the gcd-inferred Matrix index puts every contiguous "
+             "month-aligned triangle on its grid) and fromMatrix_toMatrix_contiguous (default triangle_to_matrix call, no grid "
+             "hypothesis). Correspondence: CSV text parsed with Python's csv module vs the model's rows, "
              "from_*_csv(to_*_csv(t)) vs original and model for slices distinguished by any single attribute or "
              "detail, sample order through the scenario column, array-frame round trips over resolutions 1/3/6/12 and "
              "every start month, Matrix round trips incl. quarterly periods evaluated annually and holey triangles.",
@@ -218,13 +220,14 @@ CLAIMS = {
              "layer; size-1/0-d arrays are canonicalised to their scalar as the property states 'numeric values as floats'.",
         tech="Lean 4 theorems over regenerated group-by tables + row-model differential correspondence"),
     "C15": dict(level=TV, ref="§7 C15",
-        text="34 kernel-checked theorems for both bases: rightTri_lags_exact, rightTri_metadata, rightTri_values_empty, "
+        text="37 kernel-checked theorems for both bases: rightTri_lags_exact, rightTri_metadata, rightTri_values_empty, "
              "rightTri_basis, rightTri_empty_when_complete, rightTri_disjoint_of_monotone (any unit and lag list under the "
              "exact hypothesis LagMonotone, with month and day instances), rightTri_incremental_chain, rightDiag_spec, "
              "fill_preserves_observed, fill_added_inside_gaps, fill_values, backfill_preserves_observed, "
-             "backfill_added_before_first, backfill_min_lag(_exact), backfill_values, and the Spec bridge for nine of ten "
-             "clauses of the right-triangle/diagonal Spec. One statement OPEN (extensionSpec_model: the remaining Bool "
-             "bridges). Every clause, proved or open, is evaluated by the "
+             "backfill_added_before_first, backfill_min_lag(_exact), backfill_values, fill_complete (every lag of the row's range is present after fill_forward_gaps), and the full Spec bridges "
+             "extensionSpec_model_rightTri / extensionSpec_model_rightDiag (the whole executable Spec holds on the model's output, "
+             "incl. no duplicated coordinates). Two statements OPEN (extensionSpec_model_fill / _backfill: every Prop-level clause is a "
+             "theorem, the Bool bridge to the executable Spec is missing). Every clause, proved or open, is evaluated by the "
              "Lean Spec (rightTriSpec, rightDiagSpec, fillSpec, backfillSpec) on the implementation's output, and dumps "
              "are compared with the model, for complete / upper-left / ragged / single-period / single-lag triangles, "
              "1-3 slices, both bases, lag lists and units, resolutions, minimum lags incl. negative.",
@@ -267,13 +270,13 @@ CLAIMS = {
         tech="Lean 4 theorems on rank re-imposition / thinning / development models + Spec predicates on "
              "implementation outputs"),
     "C18": dict(level=TV, ref="§7 C18",
-        text="27 kernel-checked theorems: currency_spec (bijection input/output cells, exactly the generated "
+        text="28 kernel-checked theorems: currency_spec (bijection input/output cells, exactly the generated "
              "currency fields times the slice rate, everything else unchanged, target set; both refusals), disagg_sum "
              "and disagg_weights_sum_one (renormalised weights sum to 1 over Q so sub-period values add up), "
              "policyYear_basis, policyYear_conserves (full model-level conservation per evaluation date, field and "
              "component), premium_sums, premium_nonneg, premium_earned_le_written (convolution bound), disagg_conserves, "
              "disagg_tiling (sub-periods are the closed-form whole-month blocks tiling the period), and the Bool Spec "
-             "bridges; one statement OPEN (aggregate_disagg: composing with C08's window theorems). CURRENCY_FIELDS and the interpolation-field list "
+             "bridges; aggregate_disagg_partial (per slice: aggregating the disaggregated slice back yields exactly one cell per observable input coordinate with the input's readings); one statement OPEN (aggregate_disagg at full strength: exactly-once across slices, exact key sets and positional order). CURRENCY_FIELDS and the interpolation-field list "
              "are regenerated from /repo each run. Correspondence over four streams (currency, disaggregation, policy "
              "year, premium pattern) with conservation Specs evaluated on the implementation's outputs, incl. "
              "aggregate(disaggregate(t)) = t on the implementation.",
